@@ -133,7 +133,8 @@ def resolvable(lang):
     info = vocab.locale_info(lang, lang)
     mm = vocab.meaning_map(info, True)
     L = vocab.get_locale(lang)
-    st = DateDataParser(languages=[lang])._settings
+    translate = getattr(L, "translate", None)    # internal: when renamed, the free-text probe below is the only domain filter
+    st = getattr(DateDataParser(languages=[lang]), "_settings", None)
     probe = DateDataParser(languages=[lang], settings={"RELATIVE_BASE": datetime(2021, 6, 16, 10, 30)})
     out = []
     for key in vocab.MONTHS + vocab.WEEKDAYS:
@@ -145,7 +146,7 @@ def resolvable(lang):
             if mm.get(vocab.lookup_form(w, True)) != {key}:
                 continue
             try:
-                if L.translate(w, keep_formatting=False, settings=st).strip() != key:
+                if translate is not None and st is not None and translate(w, keep_formatting=False, settings=st).strip() != key:
                     continue
                 # C05's own assertion is the domain filter: the name must resolve in free text
                 if key in vocab.MONTHS:
